@@ -184,7 +184,7 @@ DRV = 'drivers/instantiate.cpp'
 
 # arange(start, stop, step): start + k*step for every k >= 0 that lies strictly before stop (Python range)
 fn('dsplib::arange', DRV, sig='(int, int, int)', key='arange(int,int,int)', serves=['C17', 'C05'], pure=True,
-   requires=[('step', 'step != 0'), ('span', 'And(start >= -1000000, start <= 1000000, stop >= -1000000, stop <= 1000000, step >= -1000000, step <= 1000000)')],
+   requires=[('step', 'step != 0'), ('span', 'And(start >= -1073741824, start <= 1073741824, stop >= -1073741824, stop <= 1073741824, step >= -1000000, step <= 1000000, stop - start <= 1073741824, start - stop <= 1073741824)')],
    lets={'cnt': 'If(step > 0, If(stop > start, tdiv(stop - start + step - 1, step), 0), If(stop < start, tdiv(start - stop - step - 1, -step), 0))'},
    throws='False',
    ensures=[('count', 'result.len == cnt'),
@@ -254,7 +254,7 @@ fn('dsplib::complex', M, sig='dsplib::arr_cmplx (const dsplib::arr_real &)', key
             ('definition', 'forall(lambda k: Implies(And(0 <= k, k < re.len), And(result[k].re == re[k], result[k].im == 0)))')])
 
 fn('dsplib::arange', DRV, sig='dsplib::arr_real (int)', key='arange(int)', serves=['C17', 'C05'], pure=True,
-   requires=[('span', 'And(stop >= -1000000, stop <= 1000000)')], throws='False',
+   requires=[('span', 'And(stop >= -1073741824, stop <= 1073741824)')], throws='False',
    ensures=[('count', 'result.len == If(stop > 0, stop, 0)'),
             ('values', 'forall(lambda k: Implies(And(0 <= k, k < result.len), result[k] == ToReal(k)))')])
 
